@@ -193,6 +193,10 @@ func NullScalar(t ScalarType) Scalar {
  * -------------------------------------------------------------------------- */
 
 func NewConstScalar(t ScalarType, value float64) ConstScalar {
+  if f, ok := constScalarRegistry[t]; ok {
+    return f(value)
+  }
+  // every (mutable) scalar is also a constant scalar
   f, ok := scalarRegistry[t]
   if !ok {
     panic(fmt.Sprintf("invalid scalar type `%v'", t))
